@@ -56,6 +56,7 @@ package c11
 // (other-token:rotated-out / replaced-by-reload / of-refused-config / never-loaded).
 
 import (
+	"errors"
 	"fmt"
 	"os"
 	"path/filepath"
@@ -68,11 +69,15 @@ import (
 
 type chainSpec struct {
 	Focus   string   `json:"focus_list"`         // global | A | B | admin
-	Kind    string   `json:"source_kind"`        // file | env
-	Bad     string   `json:"unresolvable_as"`    // file: missing | empty | blank | dir ; env: unset | empty
+	Kind    string   `json:"source_kind"`        // file | env | raw (content_test.go)
+	Bad     string   `json:"unresolvable_as"`    // file: missing | empty | blank | dir ; env: unset | empty ; any kind: the blank contents of content_test.go
 	Member  bool     `json:"referenced_at_boot"` // the focus list references the focus source in the boot Hookaidofile
 	Content string   `json:"content_at_boot"`    // v1 | bad
-	Ops     []string `json:"steps"`              // edit | edit-other | reload | set:v1 | set:v2 | set:bad
+	Ops     []string `json:"steps"`              // edit | edit-other | reload | set:v1 | set:v2 | set:bad ; none: the table right after the boot (content_test.go)
+	// Pad, Alt (content_test.go): how a usable content of the focus source is wrapped in blanks / newlines, and the
+	// other arrangement of the focus list (a list that stands alone gets a usable companion and vice versa).
+	Pad string `json:"usable_content_padded,omitempty"`
+	Alt bool   `json:"other_list_arrangement,omitempty"`
 	// Applied: what the production reload returned for each step (filled in by the first boot of the world).
 	Applied []bool `json:"reload_applied,omitempty"`
 }
@@ -105,16 +110,27 @@ var chainFocusSource = map[string]string{"global": "g2", "A": "a1", "B": "b1", "
 
 var chainSourceNames = []string{"g1", "g2", "a1", "b1", "t1"}
 
+// sourceNames: the sources of the world (the companions a2 / t2 exist in the other list arrangement only).
+func (ch *chainSpec) sourceNames() []string {
+	if ch.Alt {
+		return append(append([]string{}, chainSourceNames...), "a2", "t2")
+	}
+	return chainSourceNames
+}
+
 // chainV1: the first content of every source; the focus source's second content is rotated(v1).
 func chainV1(name string) string {
 	p := alphaPlain
-	return map[string]string{"g1": p.G1, "g2": p.G2, "a1": p.A1, "b1": p.B1, "t1": p.T1}[name]
+	return map[string]string{"g1": p.G1, "g2": p.G2, "a1": p.A1, "b1": p.B1, "t1": p.T1, "a2": p.A2, "t2": p.T2}[name]
 }
 
 func rotated(tok string) string { return strings.TrimSuffix(tok, "Tok") + "Rot" }
 
 // sources: the source names the four lists of the Hookaidofile reference in state st (global, A, B, admin).
 func (ch *chainSpec) sources(st chainState) [4][]string {
+	if ch.Alt {
+		return ch.altSources(st)
+	}
 	g := []string{"g1"}
 	if ch.Focus == "global" && st.member {
 		g = append(g, "g2")
@@ -200,7 +216,7 @@ func (ch *chainSpec) fold(applied []bool) (force chainTable, stale map[string]st
 	stale = map[string]string{}
 	focus := chainFocusSource[ch.Focus]
 	// every value a source of this world can hold is in the column, whatever the history does with it
-	for _, n := range chainSourceNames {
+	for _, n := range ch.sourceNames() {
 		stale[chainV1(n)] = "unconfigured"
 	}
 	stale[rotated(chainV1(focus))] = "unconfigured"
@@ -263,8 +279,14 @@ func (ch *chainSpec) shape() string {
 // earlier in the history, and whether the tree applied a reload although a declared token had no value. The
 // complete history is in the message and in the replay file.
 func (ch *chainSpec) class() string {
-	if len(ch.Ops) == 0 || len(ch.Applied) != len(ch.Ops) {
+	if len(ch.Applied) != len(ch.Ops) {
 		return "undecided"
+	}
+	if len(ch.Ops) == 0 { // the table right after the boot
+		if _, resolvable := ch.load(ch.start()); !resolvable {
+			return "boot+booted-unresolvable"
+		}
+		return "boot"
 	}
 	_, _, expected := ch.fold(ch.Applied)
 	last := len(ch.Ops) - 1
@@ -295,7 +317,14 @@ func (ch *chainSpec) id() string {
 	if ch.Member {
 		start = "referenced"
 	}
-	return fmt.Sprintf("chain[%s via %s:, %s, content %s(%s): %s]", ch.Focus, ch.Kind, start, ch.Content, ch.Bad, strings.Join(ch.Ops, ">"))
+	extra := ""
+	if ch.Pad != "" {
+		extra += ", usable content padded " + ch.Pad
+	}
+	if ch.Alt {
+		extra += ", other list arrangement"
+	}
+	return fmt.Sprintf("chain[%s via %s:, %s, content %s(%s)%s: %s]", ch.Focus, ch.Kind, start, ch.Content, ch.Bad, extra, strings.Join(ch.Ops, ">"))
 }
 
 func (ch *chainSpec) describe() string {
@@ -330,9 +359,12 @@ func (ch *chainSpec) describe() string {
 func (ch *chainSpec) contentText(c string) string {
 	switch c {
 	case "v1":
-		return fmt.Sprintf("%q", chainV1(chainFocusSource[ch.Focus]))
+		return fmt.Sprintf("%q", padded(ch.Pad, chainV1(chainFocusSource[ch.Focus])))
 	case "v2":
-		return fmt.Sprintf("%q", rotated(chainV1(chainFocusSource[ch.Focus])))
+		return fmt.Sprintf("%q", padded(ch.Pad, rotated(chainV1(chainFocusSource[ch.Focus]))))
+	}
+	if c, ok := blankContents[ch.Bad]; ok {
+		return fmt.Sprintf("no usable token (%s: %q)", ch.Bad, c)
 	}
 	return "nothing resolvable (" + ch.Bad + ")"
 }
@@ -344,16 +376,20 @@ func (ch *chainSpec) contentText(c string) string {
 // into the next. They are derived from the boot's unique in-memory host address and dropped at shutdown.
 type chainSources struct {
 	kind, bad string
+	focus     string            // the focus source; its usable contents are written padded (pad)
+	pad       string
 	dir       string            // files
 	prefix    string            // environment variable names
 	holds     map[string]string // what put last wrote per source
+	lit       map[string]string // raw: the content of every source (it is part of the Hookaidofile)
 }
 
 func (w *world) newChainSources() *chainSources {
 	ch := w.spec.Chain
 	host, _, _ := strings.Cut(w.ad.ingress, ":")
 	tag := strings.ReplaceAll(host, ".", "_")
-	return &chainSources{kind: ch.Kind, bad: ch.Bad, dir: filepath.Join(w.dir, "src-"+tag), prefix: "C11C_" + tag + "_", holds: map[string]string{}}
+	return &chainSources{kind: ch.Kind, bad: ch.Bad, focus: chainFocusSource[ch.Focus], pad: ch.Pad, dir: filepath.Join(w.dir, "src-"+tag), prefix: "C11C_" + tag + "_",
+		holds: map[string]string{}, lit: map[string]string{}}
 }
 
 func (w *world) dropChainSources() {
@@ -362,7 +398,7 @@ func (w *world) dropChainSources() {
 	}
 	os.RemoveAll(w.src.dir)
 	if w.src.kind == "env" {
-		for _, n := range chainSourceNames {
+		for _, n := range append(append([]string{}, chainSourceNames...), "a2", "t2") {
 			os.Unsetenv(w.src.prefix + n)
 		}
 	}
@@ -370,8 +406,11 @@ func (w *world) dropChainSources() {
 }
 
 func (s *chainSources) ref(name string) string {
-	if s.kind == "env" {
+	switch s.kind {
+	case "env":
 		return "env:" + s.prefix + name
+	case "raw":
+		return "raw:" + s.lit[name]
 	}
 	return "file:" + filepath.Join(s.dir, name)
 }
@@ -394,12 +433,23 @@ func (s *chainSources) put(name, value string, ok bool) error {
 }
 
 func (s *chainSources) write(name, value string, ok bool) error {
-	if s.kind == "env" {
+	if ok && name == s.focus {
+		value = padded(s.pad, value)
+	}
+	blank, isBlank := blankContents[s.bad] // content_test.go; "empty" included
+	switch s.kind {
+	case "raw":
+		if !ok {
+			value = blank
+		}
+		s.lit[name] = value
+		return nil
+	case "env":
 		switch {
 		case ok:
 			return os.Setenv(s.prefix+name, value)
-		case s.bad == "empty":
-			return os.Setenv(s.prefix+name, "")
+		case isBlank:
+			return os.Setenv(s.prefix+name, blank)
 		}
 		return os.Unsetenv(s.prefix + name)
 	}
@@ -411,12 +461,12 @@ func (s *chainSources) write(name, value string, ok bool) error {
 		return err
 	}
 	switch {
+	case ok && name == s.focus && s.pad != "":
+		return os.WriteFile(p, []byte(value), 0o600) // exactly the padded content
 	case ok:
 		return os.WriteFile(p, []byte(value+"\n"), 0o600) // trailing newline, as an editor leaves it
-	case s.bad == "empty":
-		return os.WriteFile(p, nil, 0o600)
-	case s.bad == "blank":
-		return os.WriteFile(p, []byte(" \n\t\n"), 0o600)
+	case isBlank:
+		return os.WriteFile(p, []byte(blank), 0o600)
 	case s.bad == "dir":
 		return os.Mkdir(p, 0o755)
 	}
@@ -444,7 +494,7 @@ func (w *world) bootChain() error {
 	w.src = s
 	st := ch.start()
 	focus := chainFocusSource[ch.Focus]
-	for _, n := range chainSourceNames {
+	for _, n := range ch.sourceNames() {
 		v, ok := ch.value(n, st)
 		if err := s.put(n, v, ok); err != nil {
 			return err
@@ -453,6 +503,9 @@ func (w *world) bootChain() error {
 	text := ch.text(st, w.ad, s)
 	a, err := app.VerifBoot(app.VerifBootOptions{Dir: filepath.Join(w.dir, "boot"), ConfigText: text, Store: w.store})
 	if err != nil {
+		if _, resolvable := ch.load(st); !resolvable { // the boot configuration declares a token without a usable value
+			return fmt.Errorf("%w: %s: %v", errBootRefused, ch.id(), err)
+		}
 		return fmt.Errorf("boot %s: %w", w.spec.label(), err)
 	}
 	w.app = a
@@ -485,9 +538,20 @@ func (w *world) bootChain() error {
 	w.spec.Chain = &decidedChain
 	w.spec.Global, w.spec.A, w.spec.B, w.spec.Admin = force.lists[0], force.lists[1], force.lists[2], force.lists[3]
 	w.spec.Declared, w.spec.Stale = force.declared, stale
+	w.spec.Soft = nil
+	if ch.Pad != "" { // a padded content: whether the value in force is the padded or the trimmed one is not documented
+		for _, tok := range []string{chainV1(focus), rotated(chainV1(focus))} {
+			if force.holds(tok) {
+				w.spec.Soft = append(w.spec.Soft, tok)
+			}
+		}
+	}
 	w.decided = true
 	return nil
 }
+
+// errBootRefused: the tree refused to start with a boot configuration that declares a token without a usable value.
+var errBootRefused = errors.New("boot refused")
 
 // staleTokens in a fixed order (the credential column must not depend on map iteration order).
 func (c cfgSpec) staleTokens() []string {
